@@ -8,7 +8,7 @@ def bounds(tier): return BOUNDS[tier]
 DESCR = CG.DESCR
 EXPLANATION = CG.EXPL
 ASSUMPTIONS = CG.ASSUME
-RULE = 'one evaluation = one feasible schedule (path) of one scenario family, judged after the settle phase; non-trivial = more than three scheduler steps'
+RULE = 'one evaluation = one feasible schedule (path) of one scenario family, judged after the settle phase; non-trivial = a request completed or was cancelled AND the free part of the schedule contains a server change, timer expiry, cancellation, half-line delivery, slow write, fault or handle drop'
 REQUIRED_CLASSES = ['schedule with request']
 BOUNDS = {'quick': 'see instances: scenario families (1-3 callers, single commands and command lists with a failing member, from the idling state / inside the re-idle window / with a request in flight) x 4-5 free scheduler steps x budgets (<= 2 server changes, <= 1 timer expiry, <= 1 cancellation, <= 1 half-line delivery, one fault)',
           'thorough': 'the same families with 6-7 free steps and three more families'}
